@@ -863,7 +863,7 @@ func c07corpus(r *report.Run) ([]cItem, []bool) {
 }
 
 func c07run(r *report.Run) {
-	r.Rule("abstract states (function, pc, operand-stack depth above the locals) of every function of every corpus program - call-in-every-position enumeration (88 statement forms with calls of 0/1/2 results and blanks x 6 neighbourhoods), fusion-window programs, wide-frame programs (10 statement groups behind 120..300 locals, entered directly and from a caller with as many live locals), C04 forms, C06, C08, C11, C12 corpora and the Go-statement inputs of the repository's test tables - compiled with the optimizer off and on; ALL paths explored; invariants I1 (one depth per pc), I2 (never pops into locals), I3 (branches stay inside the function, never into a nested header/body), I4 (RETURN n at depth n = declared results; body ends at depth 0), I5 (slot operands below the FUNC slot count), I7 (no placeholder survives), I8 (statement-only top level ends at depth 0 / Eval returns nothing); non-trivial = function with at least one branch")
+	r.Rule("abstract states (function, pc, operand-stack depth above the locals) of every function of every corpus program - call-in-every-position enumeration (88 statement forms with calls of 0/1/2 results and blanks x 6 neighbourhoods), fusion-window programs, wide-frame programs (10 statement groups behind 120..300 locals, entered directly and from a caller with as many live locals), C04 forms, C06, C08, C11, C12 corpora and the Go-statement inputs of the repository's test tables - compiled with the optimizer off and on; ALL paths explored; invariants I1 (one depth per pc), I2 (never pops into locals), I3 (branches stay inside the function, never into a nested header/body), I4 (RETURN n at depth n = declared results; body ends at depth 0), I5 (slot operands below the FUNC slot count), I7 (no placeholder survives), I8 (statement-only top level ends at depth 0 / Eval returns nothing); plus fallthrough / defer / goto / select in 3 contexts: refused, or run as Go runs them (an accepted one must not shift the results of a later return); non-trivial = function with at least one branch")
 	r.Assume("opcode table (pops/pushes/successors) read off do.go, validated on every run by replaying the real VM's trace: each executed (pc, depth) must be an abstract state with the same depth", "the instruction list is read from the public WithCodeDump output")
 	items, stmtOnly := c07corpus(r)
 	r.Set("corpus_items", len(items))
@@ -900,6 +900,13 @@ func c07run(r *report.Run) {
 		}
 	}
 	goatlang.VerifSetOptimize(true)
+	for _, tc := range c07unsupported() {
+		r.Eval(1)
+		r.Nontrivial("unsupported " + tc[0])
+		if bad, got := c07checkUnsupported(tc); bad {
+			r.Fail(&report.Case{Kind: "unsupported", Key: tc[0], Files: map[string]string{"t/t.go": tc[1]}, Want: tc[2], Got: got})
+		}
+	}
 	r.Eval(len(items) * 2)
 	r.Set("states", total[0].states+total[1].states)
 	r.Set("transitions", total[0].transitions+total[1].transitions)
@@ -914,7 +921,39 @@ func c07run(r *report.Run) {
 	}
 }
 
+// Go statements outside the supported subset: the front end may refuse them, but a program that is accepted must
+// run as Go runs it - in particular it must not leave a value on the stack that shifts the results of a later return.
+func c07unsupported() [][3]string {
+	hdr := "package t\n\nimport \"fmt\"\n\nvar cnt int\n\nfunc z() {\n\tcnt++\n}\n\n"
+	var out [][3]string
+	add := func(name, decls, want string) {
+		out = append(out, [3]string{name, hdr + decls, want})
+	}
+	for _, ctx := range [][2]string{{"", ""}, {"\tfor i := 0; i < 1; i++ {\n", "\t}\n"}, {"\tif n > 0 {\n", "\t}\n"}} {
+		add("fallthrough"+ctx[0], "func f(n int) (int, string) {\n"+ctx[0]+"\tswitch n {\n\tcase 1:\n\t\tfallthrough\n\tcase 2:\n\t\treturn 2, \"two\"\n\t}\n"+ctx[1]+"\treturn 0, \"other\"\n}\n\nfunc Main() {\n\ta, b := f(1)\n\tfmt.Println(a, b)\n\ta, b = f(3)\n\tfmt.Println(a, b)\n}\n", "2 two\n0 other\n")
+		add("defer"+ctx[0], "func g(n int) int {\n"+ctx[0]+"\tdefer z()\n"+ctx[1]+"\tif cnt > 0 {\n\t\treturn -1\n\t}\n\treturn 7\n}\n\nfunc Main() {\n\tx := g(1)\n\tfmt.Println(x, cnt)\n}\n", "7 1\n")
+		add("goto"+ctx[0], "func h(n int) (int, int) {\n\ti := 0\n"+ctx[0]+"\tgoto done\n"+ctx[1]+"\ti = 5\ndone:\n\treturn i, n\n}\n\nfunc Main() {\n\ta, b := h(1)\n\tfmt.Println(a, b)\n}\n", "0 1\n")
+		add("select"+ctx[0], "func s(n int) (int, int) {\n"+ctx[0]+"\tselect {\n\tdefault:\n\t\tz()\n\t}\n"+ctx[1]+"\treturn cnt, n\n}\n\nfunc Main() {\n\ta, b := s(1)\n\tfmt.Println(a, b)\n}\n", "1 1\n")
+		add("bare name"+ctx[0], "func k(n int) (int, int) {\n"+ctx[0]+"\t_ = n\n"+ctx[1]+"\treturn 3, n\n}\n\nfunc Main() {\n\ta, b := k(1)\n\tfmt.Println(a, b)\n}\n", "3 1\n")
+	}
+	return out
+}
+
+func c07checkUnsupported(tc [3]string) (bool, string) {
+	res := goat.RunMain(map[string]string{"t/t.go": tc[1]}, "t", "t.Main")
+	if res.Failed() {
+		if res.HostPanic != nil && !res.Budget {
+			return true, "a Go panic escaped: " + fmt.Sprint(res.HostPanic)
+		}
+		return false, res.String() // refused, or stopped with an error: nothing was silently mis-executed
+	}
+	return res.Out != tc[2], res.Out
+}
+
 func c07rerun(c *report.Case) (bool, string) {
+	if c.Kind == "unsupported" {
+		return c07checkUnsupported([3]string{c.Key, c.Files["t/t.go"], c.Want})
+	}
 	var in c7replay
 	if !remarshal(c.Input, &in) {
 		return false, "bad input"
